@@ -351,6 +351,11 @@ def run(ctx, report):
     R7 = report.rule('C07.D7', 'a value (pool content, result of an evaluation, address of a stored cell) is never passed to eval_expr again', floor=8)
     double_eval_rule(R7, ea, methods, eh, efe)
 
+    # ---------------------------------------------------------------- D8 the pieces of an overlapping read are merged at their bit positions
+    R8 = report.rule('C07.D8', 'adjacent constant / slice pieces of an assembled read are merged at their bit positions (merge_sliceto_slice)', floor=7)
+    from .c05 import merge_rule
+    merge_rule(ctx, R8)
+
     R3 = report.rule('C07.D3', 'evaluation never short-cuts on a flag that is not machine state', floor=1)
     ee = methods.get('eval_expr')
     if ee is None:
